@@ -1,5 +1,6 @@
 #!/usr/bin/env python3
-"""Independent FDT reader (expat, no namespace processing) used by the C10 check.
+"""Independent FDT reader (expat) used by the C10 check. Element and attribute names are reduced to
+their local part (whatever prefix the writer chose), xmlns declarations are dropped.
 stdin: one hex-encoded XML document per line.  stdout: one JSON object per line:
 {"ok": true, "root": name, "attrs": {...}, "files": [{"attrs": {...}, "groups": [...], "cache": [kind, text]}], "groups": [...]}
 or {"ok": false, "error": "..."}."""
@@ -10,27 +11,31 @@ def parse(data):
     doc = {"ok": True, "root": None, "attrs": {}, "files": [], "groups": []}
     stack = []
     text = []
+    def local(n):
+        return n.split(":")[-1]
+    def clean(attrs):
+        return {local(k): v for k, v in attrs.items() if not (k == "xmlns" or k.startswith("xmlns:"))}
     def start(name, attrs):
         nonlocal text
         text = []
         if not stack:
-            doc["root"] = name
-            doc["attrs"] = dict(attrs)
-        elif name == "File":
-            doc["files"].append({"attrs": dict(attrs), "groups": [], "cache": None})
+            doc["root"] = local(name)
+            doc["attrs"] = clean(attrs)
+        elif local(name) == "File":
+            doc["files"].append({"attrs": clean(attrs), "groups": [], "cache": None})
         stack.append(name)
     def end(name):
         nonlocal text
         t = "".join(text)
-        local = name.split(":")[-1]
-        parent = stack[-2] if len(stack) >= 2 else None
-        if local == "Group":
+        lname = local(name)
+        parent = local(stack[-2]) if len(stack) >= 2 else None
+        if lname == "Group":
             if parent == "File":
                 doc["files"][-1]["groups"].append(t)
             else:
                 doc["groups"].append(t)
-        if parent is not None and parent.split(":")[-1] == "Cache-Control" and doc["files"]:
-            doc["files"][-1]["cache"] = [local, t]
+        if parent == "Cache-Control" and doc["files"]:
+            doc["files"][-1]["cache"] = [lname, t]
         stack.pop()
         text = []
     def chars(d):
